@@ -39,6 +39,11 @@ var c15Modes = []string{"healthy", "refused", "timeout", "http500", "server_erro
 // tryDecodingAPIError as the non-2xx modes do.
 var c15BodyModes = []string{"bad_data_200", "execution_200", "garbage_200"}
 
+// c15FxxModes: complete, well-framed 5xx responses as load balancers and proxies
+// send them - without a body, or with an error object cut short. The status
+// line alone makes them server errors (UNAVAILABLE).
+var c15FxxModes = []string{"http502_empty", "http503_cut"}
+
 func c15IsBodyMode(m string) bool {
 	for _, x := range c15BodyModes {
 		if x == m {
@@ -94,7 +99,7 @@ func c15Class(mode, endpoint string) string {
 	switch mode {
 	case "healthy":
 		return c15OK
-	case "refused", "timeout", "http500", "server_error":
+	case "refused", "timeout", "http500", "server_error", "http502_empty", "http503_cut":
 		return c15Unavail
 	case "bad_data", "execution":
 		return c15QueryErr
@@ -624,7 +629,22 @@ func c15Assignments(c *core.Ctx) [][]string {
 	} else {
 		out = append(out, three...)
 	}
-	return append(out, c15BodyAssignments(c)...)
+	out = append(out, c15BodyAssignments(c)...)
+	return append(out, c15FxxAssignments()...)
+}
+
+// c15FxxAssignments: each bodiless / cut-short 5xx mode alone, and before and
+// after every one of the nine base modes.
+func c15FxxAssignments() [][]string {
+	var out [][]string
+	for _, f := range c15FxxModes {
+		out = append(out, []string{f})
+		for _, a := range c15Modes {
+			out = append(out, []string{f, a}, []string{a, f})
+		}
+	}
+	out = append(out, []string{"http502_empty", "http503_cut"}, []string{"http503_cut", "http502_empty", "healthy"})
+	return out
 }
 
 // c15BodyAssignments: every assignment over the 9 + 3 modes in which at least
@@ -1147,7 +1167,7 @@ func runC15(c *core.Ctx) int {
 	nAssign := len(c15Assignments(c))
 	run.Extra("upstream_assignments", nAssign)
 	run.Extra("endpoints", c15Endpoints)
-	run.Extra("modes", append(append([]string{}, c15Modes...), c15BodyModes...))
+	run.Extra("modes", append(append(append([]string{}, c15Modes...), c15BodyModes...), c15FxxModes...))
 	run.Extra("upstream_assignments_with_a_2xx_body_mode", len(c15BodyAssignments(c)))
 	run.Extra("burst_cases_planned", len(c15BurstCases(c)))
 	seqPlanned, seqStepsPlanned := 0, 0
@@ -1161,7 +1181,7 @@ func runC15(c *core.Ctx) int {
 	run.Extra("exhaustive", !c.Quick())
 	run.Extra("children", children)
 	run.Extra("concurrent_cases", children*workers)
-	run.Assume("fault classes: healthy=OK; refused/timeout/HTTP 500/JSON server_error(503)=UNAVAILABLE; bad_data(400)/execution(422)=QUERY-ERROR; 404 on query endpoints=QUERY-ERROR; 404 on config/flags/metadata and a truncated 200 body=DON'T-CARE for continue-or-stop (the statement does not class them)")
+	run.Assume("fault classes: healthy=OK; refused/timeout/HTTP 500/JSON server_error(503)/502 without a body/503 with an error object cut short=UNAVAILABLE; bad_data(400)/execution(422)=QUERY-ERROR; 404 on query endpoints=QUERY-ERROR; 404 on config/flags/metadata and a truncated 200 body=DON'T-CARE for continue-or-stop (the statement does not class them)")
 	run.Assume("2xx-body modes: the error object of a bad_data / execution error delivered with HTTP 200 = QUERY-ERROR (the server blames the query, whatever the status line says); a complete 200 whose body is not JSON = DON'T-CARE, like a truncated body")
 	run.Assume("load shapes: a timeout pint reports for a request keeps one of the `concurrency` workers of that upstream busy for at least the configured `timeout`; k such timeouts inside a burst that took less than ceil(k/concurrency) x timeout from before the first call to after the last return (one monotonic clock) mean the timeout ran while requests waited inside pint. Timeouts that fit into the elapsed time make the case inconclusive")
 	run.Assume("fault sequences: every request on a group with a history is held to the same fault table as a request on a fresh group, with the fault modes in force during that request (the statement speaks about each request and quantifies over fault sequences). The only thing pint may carry over is its result cache: an upstream that has answered config / flags successfully earlier in the sequence counts as reachable for that endpoint from then on and as not observable (it answers without being contacted). The 404 mode, which switches an API off for the rest of the process, is not used in sequences; every other request of a sequence has a key of its own and cannot be cached")
